@@ -3,6 +3,7 @@ Typestate over the CFG of Client::handle (borrowed region), effect summaries,
 and the release gate consulted by bb8 when the guard is dropped."""
 from collections import deque
 from mirlib import *
+from common import cancelled_io_findings, fallible
 
 H = "pgcat::client::Client::handle::{closure#0}"
 HAS_BROKEN = "<pgcat::pool::ServerPool as bb8::api::ManageConnection>::has_broken"
@@ -30,6 +31,9 @@ def err_points(body):
     (`?` Break arm), Result::Err aggregates flowing into _0, and `_0 = <awaited callee result>`"""
     pts = []
     for c in body.calls("re:FromResidual<.*>>::from_residual$", "core::ops::try_trait::FromResidual::from_residual"):
+        src = [o.call.name for o in origins(body, c.args[0]) if o.kind == "call"]
+        if src and all(n.startswith("pgcat::") and not fallible(body.facts, n) for n in src):
+            continue  # `?` on a callee that cannot return Err (e.g. its only Err arm is Result<_, Infallible>)
         pts.append((c.block, "? at %s" % c.span, None))
     for b, i, st in body.assigns():
         rv = st["rv"]
@@ -49,7 +53,9 @@ def compute_bad_on_err(F, rule):
     reasons = {}
     bodies = {}
     for fn in SUMMARY_CANDIDATES:
-        b = F.body(fn + "::{closure#0}") or F.body(fn)
+        b = F.body(fn + "::{closure#0}")
+        if b is None or b.kind != "coroutine":
+            b = F.body(fn)
         if b is None:
             rule.missing("body " + fn)
             continue
@@ -314,30 +320,10 @@ def run(ctx):
             r2.note("guard local _%d, %d non-cleanup drop sites, %d exit initiators in region, %d dirty; bad_on_err members: %s" % (guard, len(drops), len([i for i in inits if (i[0], 0) in seen or (i[0], 1) in seen]), dirty, sorted(m.split("::")[-1] for m in members)))
 
     # ------------------------------------------------------------ R4 cancelled server I/O => bad
-    r4 = ctx.rule("C02-R4", "when a timeout cancels a future that holds &mut Server, every path from the elapsed arm to the function's return marks the server bad", floor=2)
-    for fn in ("pgcat::pool::ConnectionPool::run_health_check::{closure#0}", "pgcat::client::Client::receive_server_message::{closure#0}"):
-        b = ctx.body(fn, r4)
-        if not b:
-            continue
-        sws = switches(b)
-        tcalls = b.calls("re:^tokio::time::timeout::timeout$")
-        if not tcalls:
-            r4.missing("tokio::time::timeout call in " + fn)
-            continue
-        for tc in tcalls:
-            # future argument must be a server future
-            fut_calls = [o.call.name for o in origins(b, tc.args[1]) if o.kind == "call"]
-            if not any(n.startswith("pgcat::server::Server::") for n in fut_calls):
-                continue
-            el, _, sw_ = discr_edges(b, r"core::result::Result<.*Elapsed>", "Err", origin_pred=lambda o: o.kind == "call" and o.call.block == tc.block, switches_cache=sws)
-            if not el:
-                r4.fail("elapsed-arm:" + fn.split("::")[-2], "cannot find the Elapsed arm of the timeout result", tc.where())
-                continue
-            rets = [bb for bb, blk in enumerate(b.blocks) if blk["term"]["k"] == "return"]
-            marks = [c.block for c in b.calls(MARK_BAD)] + [blk for blk, i, st in b.assigns() if is_bad_write(st)]
-            wit = b.uncrossed_path([d for _, d in el], rets, blocks=marks)
-            r4.check(wit is None, "elapsed-arm:" + fn.split("::")[-2], "timeout over %s: elapsed arm always reaches mark_bad before returning" % fut_calls,
-                     "the elapsed arm of the timeout over %s can return without marking the server bad (a half-read reply stays on the connection)" % fut_calls, tc.where(), wit and b.describe_path(wit))
+    r4 = ctx.rule("C02-R4", "wherever a timeout cancels a future that holds &mut Server, every path from the elapsed arm to the next use of the connection or to the function's return marks the server bad", floor=2)
+    for fn, ok, where, wit in cancelled_io_findings(F):
+        r4.check(ok, "elapsed-arm:" + fn.replace("pgcat::", "").replace("::{closure#0}", "").split("::")[-1], "timeout over server I/O in %s: the elapsed arm always reaches mark_bad" % fn.replace("pgcat::", ""),
+                 "the elapsed arm of a timeout over server I/O in %s can go on without marking the server bad (a half-written request or half-read reply stays on the connection)" % fn.replace("pgcat::", ""), where, wit)
 
     # ------------------------------------------------------------ R5 dirty marking + reset statements
     r5 = ctx.rule("C02-R5", "SET / PREPARE / named Parse mark the connection dirty; checkin_cleanup rolls back open transactions and resets role, settings and prepared statements", floor=6)
